@@ -31,37 +31,59 @@ Print Assumptions C13_manual_retry_gate.
 
 (* One attempt of `run` of a live retry task, in every state of EVERY operation sequence, for every reply sequence:
    the loop fuel is never exhausted (the while loop ends), it issues at most one registration and at most one
-   add_appointment per locator of the retrier's set (no duplicates, nothing outside the set). *)
+   add_appointment per locator (no duplicates), each one a locator of the retrier's set or a pending row of the tower
+   (the run picks the tower's pending appointments up once before it reports success: fix b93f978). *)
 Theorem C13_run_bounded ops t a :
   let s := frun f_init ops in
   In t (f_tasks s) ->
   fst (run_attempt s t a) = fst (run_attempt s t a) /\
   snd (run_attempt s t a) <> RunFuel /\
   exists reg sent, f_log (fst (run_attempt s t a)) = f_log s ++ reg ++ map (ReqAdd t) sent /\
-                   (reg = [] \/ reg = [ReqRegister t]) /\ NoDup sent /\ incl sent (retrier_pending s t).
+                   (reg = [] \/ reg = [ReqRegister t]) /\ NoDup sent /\
+                   (forall l, In l sent -> In l (retrier_pending s t) \/ Prow (c_db (f_c s)) t l).
 Proof. exact (run_bounded ops t a). Qed.
 Print Assumptions C13_run_bounded.
 
-(* DELIVERY: a live retry task of a known tower (not flagged) that now accepts delivers its whole set in ONE attempt
-   (after a subscription error: one renewal with an extending receipt first); the task ends, the tower is reachable,
-   its retrier stopped and empty and out of WTClient::retriers; no locator of the set is a pending row any more and
-   each one that was a pending row keeps a record (a locator that was NOT a pending row of the tower any more - the
-   tower was abandoned and registered again meanwhile - is dropped without a request: fix 8108569); no other pending
-   row appears. *)
+(* DELIVERY: a live retry task of a known tower (not flagged) that now accepts delivers its whole set AND everything
+   else that is pending for the tower in ONE attempt (after a subscription error: one renewal with an extending receipt
+   first); the task ends, the tower is reachable, its retrier stopped and empty and out of WTClient::retriers; NO pending
+   row of the tower is left (fix b93f978: not only none of the retrier's set) and each one that was a pending row keeps
+   a record (a locator of the set that was NOT a pending row of the tower any more - the tower was abandoned and
+   registered again meanwhile - is dropped without a request: fix 8108569); no other pending row appears.
+   The tower accepts long enough: as many times as the set and the pending rows together are long. *)
 Theorem C13_delivers_attempt ops t a sl rest :
   let s := frun f_init ops in poisoned s = false ->
   In t (f_tasks s) -> knownc (f_c s) t -> stat (f_c s) t <> Some Misbehaving ->
-  at_adds a = accept_all sl ++ rest -> (length (retrier_pending s t) <= length sl)%nat ->
+  at_adds a = accept_all sl ++ rest ->
+  (length (retrier_pending s t) + length (pending_locators (c_db (f_c s)) t) <= length sl)%nat ->
   (stat (f_c s) t = Some SubscriptionError ->
      exists slots start expiry, at_reg a = RReceipt slots start expiry true /\ reg_extends (f_c s) t slots expiry = true) ->
   let s' := fst (fstep s (FRetrierRun t [a])) in
   snd (fstep s (FRetrierRun t [a])) = ORun OutDelivered /\
   stat (f_c s') t = Some Reachable /\ rstat s' t = Some RStopped /\ retrier_pending s' t = [] /\
   ~ In t (f_tasks s') /\ aget (c_retriers (f_c s')) t = None /\
-  (forall l, In l (retrier_pending s t) -> ~ Prow (c_db (f_c s')) t l /\ (Prow (c_db (f_c s)) t l -> recorded (c_db (f_c s')) t l)) /\
+  (forall l, ~ Prow (c_db (f_c s')) t l) /\ (forall l, Prow (c_db (f_c s)) t l -> recorded (c_db (f_c s')) t l) /\
   (forall k x, Prow (c_db (f_c s')) k x -> Prow (c_db (f_c s)) k x).
 Proof. exact (delivers_attempt ops t a sl rest). Qed.
 Print Assumptions C13_delivers_attempt.
+
+(* REACHABLE MEANS NOTHING PENDING (fix b93f978, the former finding D7): whenever an attempt of a live retry task
+   succeeds - in every state of EVERY operation sequence, for every reply sequence, WHATEVER the retrier's in-memory set
+   was (a retrier created by a revocation after a renewal was refused for good holds only the new locator while older
+   appointments are pending) - no pending row of the tower is left when the task flags it reachable: the pending list is
+   empty, nothing that had a record lost it, the retrier is empty, and the tower is shown reachable unless it is flagged
+   as misbehaving. *)
+Theorem C13_success_leaves_nothing_pending ops t a :
+  let s := frun f_init ops in
+  In t (f_tasks s) -> snd (run_attempt s t a) = RunOk ->
+  let s1 := fst (run_attempt s t a) in
+  let s' := fst (task_step s1 t RunOk (at_more a)) in
+  (forall l, ~ Prow (c_db (f_c s')) t l) /\ pending_locators (c_db (f_c s')) t = [] /\
+  (forall k x, recorded (c_db (f_c s)) k x -> recorded (c_db (f_c s')) k x) /\
+  snd (task_step s1 t RunOk (at_more a)) = OutDelivered /\ retrier_pending s' t = [] /\
+  (stat (f_c s) t <> Some Misbehaving -> stat (f_c s') t = Some Reachable).
+Proof. exact (success_leaves_nothing_pending ops t a). Qed.
+Print Assumptions C13_success_leaves_nothing_pending.
 
 (* THE BOUND: from an idle retrier (the tower was given up on) with a drained, living manager: 3 steps — the tick
    after the auto-retry delay has elapsed wakes it (manager_wakes), the next tick starts it (manager_starts), one
@@ -75,7 +97,7 @@ Theorem C13_delivers_on_recovery ops t r0 a sl rest :
   stat (f_c s) t <> Some SubscriptionError -> stat (f_c s) t <> Some Misbehaving ->
   set_union (r_pending r0) (pending_locators (c_db (f_c s)) t) <> [] ->
   at_adds a = accept_all sl ++ rest ->
-  (length (set_union (r_pending r0) (pending_locators (c_db (f_c s)) t)) <= length sl)%nat ->
+  (length (set_union (r_pending r0) (pending_locators (c_db (f_c s)) t)) + length (pending_locators (c_db (f_c s)) t) <= length sl)%nat ->
   let s3 := frun s [FManagerTick [t]; FManagerTick []; FRetrierRun t [a]] in
   pending_locators (c_db (f_c s3)) t = [] /\ stat (f_c s3) t = Some Reachable /\ rstat s3 t = Some RStopped /\
   retrier_pending s3 t = [] /\ ~ In t (f_tasks s3) /\ aget (c_retriers (f_c s3)) t = None.
@@ -157,6 +179,23 @@ Example C13_delivery_example :
                         FRetrierRun 0 [w_att [] true; w_att [AAccept 110] true]] in
   pending_locators (c_db (f_c s)) 0 = [] /\ f_tasks s = [] /\
   match aget (c_towers (f_c s)) 0 with Some su => su_status su = Reachable | None => False end.
+Proof. vm_compute. repeat split. Qed.
+
+(* the former finding D7 as a regression witness (and non-vacuity of C13_success_leaves_nothing_pending): a renewal is
+   refused for good (a receipt that does not verify), the tower stays in subscription error with 7 pending and no
+   retrier; revocation 8 creates a retrier that holds only 8; the tower accepts again: the run renews, delivers 8 AND 7
+   (it used to flag the tower reachable with 7 still pending until a restart) *)
+Example C13_former_finding_D7 :
+  let bad := {| at_reg := RReceipt 100 10 1100 false; at_adds := []; at_order := []; at_more := true |} in
+  let s := frun f_init [FRegister 0 (w_good 1); FRevocation 7 [] [(0, ASubErr)]; FManagerTick []; FManagerTick [];
+                        FRetrierRun 0 [bad]; FManagerTick []; FRevocation 8 [] []; FManagerTick []; FManagerTick []] in
+  stat (f_c s) 0 = Some SubscriptionError /\ retrier_pending s 0 = [8] /\ pending_locators (c_db (f_c s)) 0 = [7; 8] /\
+  f_tasks s = [0] /\
+  let a := w_att [AAccept 110; AAccept 110] true in
+  snd (run_attempt s 0 a) = RunOk /\
+  let s' := frun s [FRetrierRun 0 [a]] in
+  stat (f_c s') 0 = Some Reachable /\ pending_locators (c_db (f_c s')) 0 = [] /\
+  f_log s' = f_log s ++ [ReqRegister 0; ReqAdd 0 8; ReqAdd 0 7].
 Proof. vm_compute. repeat split. Qed.
 
 (* the former defects D3 / D5 as regression witnesses: registertower against a known tower that is down, with nothing
